@@ -22,7 +22,10 @@ def main():
     checks = [pid]
     if "--checks" in sys.argv:
         checks = sys.argv[sys.argv.index("--checks") + 1].split(",")
-    src = "/tmp/seed-%s/SEED" % pid
+    rnd = "seed"
+    if "--round" in sys.argv:
+        rnd = sys.argv[sys.argv.index("--round") + 1]
+    src = "/tmp/%s-%s/SEED" % (rnd, pid)
     patch = os.path.join(src, "patch%s.diff" % n)
     demo = os.path.join(src, "demo%s_test.go" % n)
     if not (os.path.exists(patch) and os.path.exists(demo)):
@@ -33,6 +36,7 @@ def main():
     if ddir in ("root", "(root)", "repo-root"):
         ddir = "."
     wt = "/tmp/sv-%s-%s" % (pid, n)
+    meta_round = rnd
     sh("git -C /repo worktree remove --force %s" % wt)
     rc, out = sh("git -C /repo worktree add -q %s HEAD" % wt)
     meta = {"property": pid, "n": int(n), "demo_dir": ddir, "steps": {}}
@@ -89,7 +93,7 @@ def main():
                         break
         finally:
             sh("git -C /repo checkout -- .")
-    dst = "/verif/seeded/%s-%s" % (pid, n)
+    dst = "/verif/seeded/%s-%s%s" % (pid, n, "" if rnd == "seed" else "-" + rnd)
     os.makedirs(dst, exist_ok=True)
     shutil.copy(patch, os.path.join(dst, "patch.diff"))
     shutil.copy(demo, os.path.join(dst, "demo_test.go"))
